@@ -20,7 +20,7 @@
 
 pub use ntp_proto::verif::keyset as kh;
 pub use ntp_proto::verif::packet::crypto::{
-    AesSivCmac256, AesSivCmac512, Cipher, DecryptError, EncryptResult,
+    AesSivCmac256, AesSivCmac512, Cipher, DecryptError, EncryptResult, KeyError,
 };
 pub use ntp_proto::{DecodedServerCookie, KeySet, KeySetProvider};
 
@@ -183,6 +183,44 @@ pub fn siv512_new_random() -> AesSivCmac512 {
     }
 }
 
+/// Specification of `AesSivCmac256::try_from` / `AesSivCmac512::try_from` (key from bytes: `Ok`
+/// with exactly these key bytes iff the length is the key size). The real functions go through
+/// generic-array/typenum iterator plumbing and a zeroizing temporary (measured: 106 k symex steps
+/// for one 32-byte key); `c26_key_try_from_256/512` prove them equal to this specification for
+/// every input length, and the rotation/persistence harnesses (`ks_harness_spec!`) use the
+/// specification in their place. The round-trip and tamper harnesses run the real functions.
+pub fn siv256_try_from_spec(key_bytes: &[u8]) -> Result<AesSivCmac256, KeyError> {
+    if key_bytes.len() != 32 {
+        return Err(KeyError);
+    }
+    let mut a = [0u8; 32];
+    a.copy_from_slice(key_bytes);
+    Ok(AesSivCmac256::new(a.into()))
+}
+
+pub fn siv512_try_from_spec<I>(key_bytes: I) -> Result<AesSivCmac512, KeyError>
+where
+    I: IntoIterator,
+    I::Item: std::borrow::Borrow<u8>,
+    I::IntoIter: ExactSizeIterator,
+{
+    use std::borrow::Borrow;
+    let mut it = key_bytes.into_iter();
+    if it.len() != 64 {
+        return Err(KeyError);
+    }
+    let mut a = [0u8; 64];
+    let mut i = 0;
+    while i < 64 {
+        match it.next() {
+            Some(b) => a[i] = *b.borrow(),
+            None => return Err(KeyError),
+        }
+        i += 1;
+    }
+    Ok(AesSivCmac512::new(a.into()))
+}
+
 /// zeroize's compiler barrier is inline assembly (no semantic effect; Kani cannot encode it).
 pub fn zeroize_barrier_stub<T: ?Sized>(_val: &T) {}
 
@@ -204,6 +242,19 @@ macro_rules! ks_harness {
         #[kani::stub(std::time::SystemTime::now, crate::common::system_time_now)]
         $(#[$m])*
         fn $name() $body
+    };
+}
+
+/// Same, plus the (separately proven) `try_from` specifications instead of the real functions.
+#[macro_export]
+macro_rules! ks_harness_spec {
+    ( $(#[$m:meta])* fn $name:ident() $body:block ) => {
+        $crate::ks_harness! {
+            #[kani::stub(ntp_proto::verif::packet::crypto::AesSivCmac256::try_from, crate::common::siv256_try_from_spec)]
+            #[kani::stub(ntp_proto::verif::packet::crypto::AesSivCmac512::try_from, crate::common::siv512_try_from_spec)]
+            $(#[$m])*
+            fn $name() $body
+        }
     };
 }
 
